@@ -1,7 +1,7 @@
 #!/bin/bash
-# tools/mutant.sh <patch.diff> <prop> [quick|thorough]  -- run a check against a scratch copy of /repo with the patch applied
+# tools/mutant.sh <patch.diff | seeded/<id> dir> <prop> [quick|thorough]  -- run a check against a scratch copy of /repo with the patch applied
 # (scratch copy = git archive of /repo HEAD; if the patch does not apply there, of $BASE (default: the commit the seeded mutants were written against))
-PATCH="$(readlink -f "$1")"; PROP="$2"; TIER="${3:-quick}"; BASE="${BASE:-7d67693}"
+PATCH="$(readlink -f "$1")"; [ -d "$PATCH" ] && { [ -f "$PATCH/patch.head.diff" ] && PATCH="$PATCH/patch.head.diff" || PATCH="$PATCH/patch.diff"; }; PROP="$2"; TIER="${3:-quick}"; BASE="${BASE:-7d67693}"
 D="$(mktemp -d /tmp/verif-mut-XXXXXX)"
 trap 'rm -rf "$D"' EXIT
 mkdir -p "$D/repo"
